@@ -255,6 +255,9 @@ impl Property for C20 {
             enum_len(tier)
         ))
     }
+    fn concurrent() -> bool {
+        true
+    }
     fn check(spec: &Spec, _env: &mut Env) -> Outcome {
         let mut o = Outcome::new();
         let framing = |t: &str, p: &[u8]| {
